@@ -162,6 +162,7 @@ func first(b []byte) byte {
 func runWorkloads(r *kit.Run, tag string, pal func() *workloads.Palette, rounds int) {
 	for round := 0; round < rounds; round++ {
 		workloads.Gov(r, r.Rand(fmt.Sprintf("%s/gov/%d", tag, round)), pal())
+		workloads.GenesisAll(r, r.Rand(fmt.Sprintf("%s/genesis/%d", tag, round)), pal())
 		for _, name := range []string{"eth", "bsc", "heco", "hsc", "pixie", "bytom", "msc"} {
 			workloads.EVM(r, r.Rand(fmt.Sprintf("%s/evm/%s/%d", tag, name, round)), pal(), name, uint64(2000+round))
 		}
